@@ -231,7 +231,7 @@ func hasSuffix(s, suf string) bool { return len(s) >= len(suf) && s[len(s)-len(s
 // parent, and references that belong to others are not lost on the way. M-OWN judges the
 // requests; this test supplies the inputs.
 func TestVerif_C02_DesiredOwnerRefs(t *testing.T) {
-	for _, refs := range []string{"foreign-controller", "foreign-plain", "parent-echo", "parent-wrong-uid", "two-foreign-plain"} {
+	for _, refs := range []string{"foreign-controller", "foreign-plain", "parent-echo", "parent-wrong-uid", "two-foreign-plain", "parent-plain"} {
 		for _, ssa := range []bool{false, true} {
 			for _, existing := range []bool{false, true} {
 				for _, kind := range []string{"Widget", "ConfigMap"} {
@@ -281,6 +281,9 @@ func runC02OwnerRefs(t *testing.T, id, refs string, ssa, existing bool, kind str
 		want = []interface{}{ref("rs", "rs-"+uid, false), ref("rs2", "rs2-"+uid, false)}
 	case "parent-echo":
 		want = []interface{}{sim.Obj{"apiVersion": sc.parentInfo().APIVersion(), "kind": sc.parentInfo().Kind, "name": sc.parentName(), "uid": sim.UID(r.parent), "controller": true, "blockOwnerDeletion": true}}
+	case "parent-plain":
+		// the hook lists the parent itself, as a plain (non-controller) owner
+		want = []interface{}{sim.Obj{"apiVersion": sc.parentInfo().APIVersion(), "kind": sc.parentInfo().Kind, "name": sc.parentName(), "uid": sim.UID(r.parent)}}
 	case "parent-wrong-uid":
 		want = []interface{}{sim.Obj{"apiVersion": sc.parentInfo().APIVersion(), "kind": sc.parentInfo().Kind, "name": sc.parentName(), "uid": "previous-incarnation-" + uid, "controller": true, "blockOwnerDeletion": true}}
 	}
